@@ -1,6 +1,6 @@
 """C10 — library functions never modify the caller's data (dynamic twin of the ownership statements):
 deep snapshot before / after, and identity-disjointness of all mutable sub-objects between argument and result."""
-import io, contextlib
+import io, contextlib, re, json, os
 from common import *
 from harness.shells import *
 
@@ -84,6 +84,11 @@ def work(item):
     case('manip.autoaux_basis', manip.autoaux_basis, [fresh()])
     case('manip.autoabs_basis', manip.autoabs_basis, [fresh()])
     case('sort.sort_basis', sort.sort_basis, [fresh()])
+    case('sort.sort_basis_dict', sort.sort_basis_dict, [fresh()])
+    case('manip.uncontract_spdf(2)', manip.uncontract_spdf, [fresh(), 2])
+    case('manip.remove_free_primitives', manip.remove_free_primitives, [fresh()])
+    for mon in ('jul', 'may', 'apr'):
+        case('manip.truhlar_calendarize(%s)' % mon, manip.truhlar_calendarize, [fresh(), mon])
     case('sort.sort_basis(True)', sort.sort_basis, [fresh(), True])
     els = list(b['elements'].values())
     el = rng.choice(els)
@@ -98,6 +103,8 @@ def work(item):
         case('compare.electron_shells_are_equal', cmp.electron_shells_are_equal, [copy.deepcopy(shells), copy.deepcopy(shells)])
         case('compare.compare_electron_shells', cmp.compare_electron_shells, [copy.deepcopy(shells[0]), copy.deepcopy(shells[-1])])
         case('diff.subtract_electron_shells', curate.diff.subtract_electron_shells, [copy.deepcopy(shells), copy.deepcopy(shells[:1])])
+        case('diff.subtract_electron_shells(none)', curate.diff.subtract_electron_shells, [copy.deepcopy(shells), []])
+        case('compare.electron_shells_are_subset', cmp.electron_shells_are_subset, [copy.deepcopy(shells[:1]), copy.deepcopy(shells)])
     if 'ecp_potentials' in el:
         pots = copy.deepcopy(el['ecp_potentials'])
         case('sort.sort_potentials', sort.sort_potentials, [pots])
@@ -105,6 +112,8 @@ def work(item):
         case('sort.sort_potentials(one)', sort.sort_potentials, [copy.deepcopy(pots[:1])])
         case('sort.sort_potentials(none)', sort.sort_potentials, [[]])
         case('compare.ecp_pots_are_equal', cmp.ecp_pots_are_equal, [copy.deepcopy(pots), copy.deepcopy(pots)])
+        case('compare.ecp_pots_are_subset', cmp.ecp_pots_are_subset, [copy.deepcopy(pots[:1]), copy.deepcopy(pots)])
+        case('compare.compare_ecp_pots', cmp.compare_ecp_pots, [copy.deepcopy(pots[0]), copy.deepcopy(pots[-1])])
     # merge_element_data: dest and sources
     if len(els) >= 2:
         d0 = copy.deepcopy(els[0])
@@ -127,6 +136,16 @@ def work(item):
             refs = bse.get_references(src[0], version=src[1])
             for rf in ('txt', 'bib', 'ris', 'endnote', 'json'):
                 case('refconverters.' + rf, refconverters.convert_references, [copy.deepcopy(refs), rf])
+            # the same data after a trip through JSON (lists where the API hands out tuples)
+            case('refconverters.bib(json form)', refconverters.convert_references, [json.loads(json.dumps(refs)), 'bib'])
+            # the reference sorters, on the entries this basis cites
+            rd = bse.get_reference_data()
+            keys = sorted(set(k for g in refs for ri in g['reference_info'] for k, _ in ri['reference_data']))[:6]
+            sub = {'molssi_bse_schema': copy.deepcopy(rd['molssi_bse_schema'])}
+            for k in keys:
+                sub[k] = copy.deepcopy(rd[k])
+                case('sort.sort_single_reference', sort.sort_single_reference, [copy.deepcopy(rd[k])])
+            case('sort.sort_references_dict', sort.sort_references_dict, [sub])
         except Exception:
             pass
         zs = list(b['elements'])
@@ -145,9 +164,52 @@ def work(item):
     return out
 
 
+def static_report():
+    """the ownership check of every regenerated skeleton, evaluated by Lean: (number of skeletons, [(function, why refused)])"""
+    import subprocess, tempfile
+    src = ('import BSEGen.OwnSkel\nopen BSE.Heap BSE.Gen.OwnSkel\n'
+           '#eval IO.println s!"COUNT {all.length}"\n'
+           '#eval (all.filterMap (fun k => match firstRefusal k.body (Abs.init k.params) with | .error e => some (k.name, e) | .ok _ => '
+           'if k.accepted then none else some (k.name, "refused"))).forM (fun p => IO.println s!"REFUSED {p.1} :: {p.2}") *> pure ()\n')
+    fd, path = tempfile.mkstemp(suffix='.lean', dir=os.path.join(LEAN, '.audit') if os.path.isdir(os.path.join(LEAN, '.audit')) else None)
+    os.write(fd, src.encode())
+    os.close(fd)
+    try:
+        p = subprocess.run(['lake', 'env', 'lean', path], cwd=LEAN, stdout=subprocess.PIPE, stderr=subprocess.STDOUT, timeout=900)
+        out = p.stdout.decode(errors='replace')
+    finally:
+        os.unlink(path)
+    m = re.search(r'COUNT (\d+)', out)
+    if not m:
+        return None, [], out[-600:]
+    return int(m.group(1)), re.findall(r'REFUSED (\S+) :: (.*)', out), ''
+
+
+# static skeleton name -> the labels the dynamic twin uses for the same function
+def dyn_name(skel):
+    mod, fn = skel.rsplit('.', 1)
+    mod = mod.split('.')[-1]
+    if mod == 'convert' and fn == 'convert_references':
+        return 'refconverters.'
+    if skel.startswith('writers.') and fn.startswith('write_'):
+        return 'writers.'
+    return {'compare': 'compare.', 'diff': 'diff.'}.get(mod, mod + '.') + fn
+
+
 def run(ctx):
     bse = import_bse()
     R = Result('C10')
+    nsk, refused, err = static_report()
+    if nsk is None:
+        R.disagree('own_skeletons', None, None, None, 'the skeleton report could not be evaluated: ' + err)
+    else:
+        R.extra['static_skeletons'] = nsk
+        R.extra['static_refused'] = ['%s: %s' % r for r in refused]
+        R.count('static:skeletons', nsk)
+    # sort_basis_dict is refused by construction (Props/C10.lean, beyondTheAbstraction): it is the probes that cover it
+    refused = [r for r in refused if r[0] != 'sort.sort_basis_dict']
+    refused_dyn = set(dyn_name(n) for n, _ in refused)
+    flagged_dyn = set()
     items = [('%s/%s' % p, p, '%s-%d' % (p[0], ctx.seed)) for p in sample_pairs(ctx, ctx.n(12, 10 ** 6))]
     aug = [p for p in store_pairs() if p[0].startswith('aug-cc-pv')][:3]
     items += [('%s/%s' % p, p, 'a-%s' % p[0]) for p in aug]
@@ -164,10 +226,16 @@ def run(ctx):
             if c['raised']:
                 R.count('raised:' + c['raised'])
             for b in c['bad']:
+                flagged_dyn.add(c['fn'].split('(')[0])
                 R.violation(b, c['fn'].split('(')[0], '%s: %s' % (c['fn'], 'the argument differs from its snapshot after the call' if b == 'argument_modified'
                                                                    else 'a dict/list of the result is an object of the argument'),
                             dict(function=c['fn'], basis=out['label']), function=c['fn'].split('(')[0])
         R.sample(dict(basis=out['label'], functions=len(out['cases'])))
+    # the two sides must tell the same story: a function the ownership check refuses and no probe convicts is reported by check.py as
+    # an unproved obligation; a function a probe convicts although its skeleton was accepted is a gap of the extraction
+    for fn in sorted(flagged_dyn):
+        if nsk is not None and not any(fn.startswith(r) or r.startswith(fn) for r in refused_dyn) and not fn.startswith('api.'):
+            R.disagree('own_skeletons', fn, 'accepted', 'convicted', 'the probes convict %s but its skeleton passes the ownership check (extraction gap)' % fn)
     return R
 
 
